@@ -16,7 +16,7 @@ type ReplayInfo struct {
 // and model, and the SMT query itself. When the model can be turned into concrete inputs for the
 // real function, a Go test is generated and run against /repo (see replaygo.go).
 func writeReplay(g *Gen, vdir, pid string, r *Result) ReplayInfo {
-	dir := filepath.Join(vdir, "replays", pid)
+	dir := filepath.Join(outDir(vdir), "replays", pid)
 	os.MkdirAll(dir, 0o755)
 	base := sanitize(r.Obl.Name)
 	if len(base) > 150 {
